@@ -71,6 +71,7 @@ func parent() {
 			fmt.Fprintf(os.Stderr, "worker %d died near {%s}:\n%s\n", i, strings.TrimSpace(journal), clip(tail, 4000))
 		})
 		rerun := map[string]bool{}
+		var lateWhat []string
 		for k, v := range rr.Extra {
 			switch {
 			case strings.HasPrefix(k, "gate-failed/"):
@@ -79,6 +80,7 @@ func parent() {
 				p := strings.Split(k, "/")
 				for _, s := range v.([]interface{}) {
 					seeds[p[1]] = append(seeds[p[1]], s.(string))
+					lateWhat = append(lateWhat, p[1]+": "+s.(string))
 				}
 				rerun[p[1]] = true
 			}
@@ -127,7 +129,8 @@ func parent() {
 		}
 		sort.Strings(l)
 		only = strings.Join(l, ",")
-		r.Note("round %d: scenarios %s restarted in all shards: a shard learned a new preemption-point class after the learning phase", round, only)
+		sort.Strings(lateWhat)
+		r.Note("round %d: scenarios %s restarted in all shards: a shard learned a new preemption-point class after the learning phase (%s)", round, only, strings.Join(lateWhat, "; "))
 		if core.OutOfTime() {
 			r.NotExhaustive("deadline before the restarted scenarios " + only + " could be explored")
 			break
@@ -329,7 +332,7 @@ func freeRun() {
 			outcomes[sc.Name][ob.Outcome]++
 			for _, b := range ob.Bad {
 				bad++
-				fmt.Printf("FREE-RUN scenario %s: %s\n", sc.Name, b)
+				fmt.Printf("FREE-RUN scenario %s: %s\n", sc.Name, b[1])
 			}
 			if _, ok := seq.Outcomes[ob.Outcome]; !ok {
 				bad++
